@@ -71,7 +71,10 @@ def optional_props_resource(rng):
 def list_param_resource(rng):
     """list-typed and value-less parameters, used where a list / a string is expected"""
     return {"Type": "Custom::Uses", "Properties": {"Subnets": {"Ref": "Subnets"}, "First": {"Fn::Select": [0, {"Ref": "Names"}]}, "Joined": {"Fn::Join": [",", {"Ref": "Names"}]},
-                                                   "Ports": {"Ref": "Ports"}, "OnePort": {"Ref": "OnePort"}, "FirstZone": {"Fn::Select": [0, {"Ref": "Zones"}]}, "Missing": {"Ref": "NoValueList"}, "Plain": {"Ref": "NoValue"}, "Each": [{"Ref": "Env"}, {"Fn::Sub": "${Env}-${AWS::Region}"}]}}
+                                                   "Ports": {"Ref": "Ports"}, "OnePort": {"Ref": "OnePort"}, "FirstZone": {"Fn::Select": [0, {"Ref": "Zones"}]}, "Missing": {"Ref": "NoValueList"}, "Plain": {"Ref": "NoValue"}, "Each": [{"Ref": "Env"}, {"Fn::Sub": "${Env}-${AWS::Region}"}],
+                                                   # numbers and booleans stored in a mapping, joined into text
+                                                   "Desc": {"Fn::Join": ["", ["port ", {"Fn::FindInMap": ["Stages", rng.choice(["prod", "dev", {"Ref": "Env"}]), rng.choice(["Port", "Secure"])]}]]},
+                                                   "Ports2": {"Fn::Join": [",", [{"Fn::FindInMap": ["Stages", "prod", "Port"]}, {"Ref": "Count"}, "x"]]}}}
 
 
 PARAMS = {
@@ -118,7 +121,7 @@ def gen_case(rng, i):
         res[f"R{j}"] = r
     t = {"AWSTemplateFormatVersion": "2010-09-09", "Description": "d", "Parameters": copy.deepcopy(PARAMS),
          "Conditions": {"IsProd": {"Fn::Equals": [{"Ref": "Env"}, "prod"]}, "IsDev": {"Fn::Not": [{"Condition": "IsProd"}]}},
-         "Mappings": {"M": {"a": {"b": "c"}}}, "Resources": res, "Outputs": {"O": {"Value": {"Ref": "R0"}}}}
+         "Mappings": {"M": {"a": {"b": "c"}}, "Stages": {"prod": {"Port": 8443, "Secure": True}, "dev": {"Port": 8080, "Secure": False}}}, "Resources": res, "Outputs": {"O": {"Value": {"Ref": "R0"}}}}
     extra = rng.choice([{}, {"Env": "prod"}, {"Env": "prod", "Names": "x", "NoValue": "given", "Ports": "1,2,3"}, {"NoValueList": "p,q", "Unused": "u"}, {"Ports": 8443, "Count": 7}, {"Names": 5, "Env": "dev"}])
     if i % 5 == 4:
         # all sixteen functions, in the properties of unmodelled resources (any value fits there; whether the expression
@@ -130,6 +133,7 @@ def gen_case(rng, i):
             t2["Parameters"].setdefault(k, v)
         t2["Conditions"].setdefault("IsProd", t["Conditions"]["IsProd"])
         t2["Conditions"].setdefault("IsDev", t["Conditions"]["IsDev"])
+        t2["Mappings"].update(t["Mappings"])
         t = t2
         kinds = kinds[:3] + ["functions"]
     return t, extra, kinds
@@ -207,6 +211,10 @@ def run(report, tier, seed, driver, proofs_ok):
                 except common.WallClockExceeded:
                     pass  # every family generates valid definitions: a parse that does not finish is a finding of phase 2
                 except Exception as e:
+                    # every family builds valid definitions: a template rejected at parse is a failure of the first stage
+                    report.count("outcome:raised:parse")
+                    report.violation("oracle", f"pipeline-raises-{common.exc_class(e)}:parse", op={"template": tv, "extra": extra, "variant": variant}, impl={"message": str(e)[:300]},
+                                     oracle="parse of a template built from valid definitions", shape="other")
                     item["scope"], item["why"] = False, "does-not-parse:" + common.exc_class(e)
             todo.append(item)
     outs = driver.run(ops, timeout=1800) if ops else []
